@@ -39,6 +39,7 @@ type Prog struct {
 	Overlay map[string][]byte
 
 	apps map[string]*App
+	virt map[string]string
 
 	nFiles, nFuncs int
 }
@@ -71,16 +72,47 @@ func env(arch string) []string {
 
 // Load loads the main universe from dir (normally /repo) for the given GOARCH
 // ("" = host). overlay maps absolute file names to replacement contents.
+//
+// app/ holds several `package main` files that do not compile together; each
+// app/<x>.go is presented to the loader as its own package through an overlay
+// directory app/vp_<x>/main.go, so the wiring code shares one type universe with
+// the packages it wires.
 func Load(dir, arch string, overlay map[string][]byte) (*Prog, error) {
 	fset := token.NewFileSet()
+	ov := map[string][]byte{}
+	for k, v := range overlay {
+		ov[k] = v
+	}
+	patterns := append([]string{}, Patterns...)
+	appFiles, _ := filepath.Glob(filepath.Join(dir, "app", "*.go"))
+	sort.Strings(appFiles)
+	virt := map[string]string{} // virtual file -> real file
+	for _, f := range appFiles {
+		if strings.HasSuffix(f, "_test.go") {
+			continue
+		}
+		b, ok := overlay[f]
+		if !ok {
+			var err error
+			b, err = os.ReadFile(f)
+			if err != nil {
+				return nil, err
+			}
+		}
+		base := strings.TrimSuffix(filepath.Base(f), ".go")
+		vf := filepath.Join(dir, "app", "vp_"+base, "main.go")
+		ov[vf] = b
+		virt[vf] = f
+		patterns = append(patterns, "./app/vp_"+base)
+	}
 	cfg := &packages.Config{
 		Mode:    packages.LoadAllSyntax,
 		Dir:     dir,
 		Fset:    fset,
 		Env:     env(arch),
-		Overlay: overlay,
+		Overlay: ov,
 	}
-	pkgs, err := packages.Load(cfg, Patterns...)
+	pkgs, err := packages.Load(cfg, patterns...)
 	if err != nil {
 		return nil, fmt.Errorf("load: %v", err)
 	}
@@ -97,17 +129,25 @@ func Load(dir, arch string, overlay map[string][]byte) (*Prog, error) {
 		}
 		return nil, fmt.Errorf("type/load errors: %s", strings.Join(errs, "; "))
 	}
-	if len(pkgs) < MinPackages {
-		return nil, fmt.Errorf("only %d packages loaded, expected at least %d", len(pkgs), MinPackages)
-	}
 	prog, _ := ssautil.AllPackages(pkgs, ssa.InstantiateGenerics)
 	prog.Build()
 	p := &Prog{Dir: dir, Arch: arch, Fset: fset, Pkgs: map[string]*packages.Package{}, SSA: prog,
-		SSAPkgs: map[string]*ssa.Package{}, Overlay: overlay, apps: map[string]*App{}}
+		SSAPkgs: map[string]*ssa.Package{}, Overlay: overlay, apps: map[string]*App{}, virt: virt}
+	nMain := 0
 	for _, pk := range pkgs {
+		if strings.HasPrefix(pk.PkgPath, Mod+"/app/vp_") {
+			base := strings.TrimPrefix(pk.PkgPath, Mod+"/app/vp_")
+			p.apps[base+".go"] = &App{File: filepath.Join(dir, "app", base+".go"), Pkg: pk, SSA: prog.Package(pk.Types), Prog: prog}
+			p.nFiles += len(pk.Syntax)
+			continue
+		}
+		nMain++
 		p.Pkgs[pk.PkgPath] = pk
 		p.SSAPkgs[pk.PkgPath] = prog.Package(pk.Types)
 		p.nFiles += len(pk.Syntax)
+	}
+	if nMain < MinPackages {
+		return nil, fmt.Errorf("only %d packages loaded, expected at least %d", nMain, MinPackages)
 	}
 	for fn := range ssautil.AllFunctions(prog) {
 		if fn.Pkg != nil && strings.HasPrefix(fn.Pkg.Pkg.Path(), Mod) && len(fn.Blocks) > 0 {
@@ -125,41 +165,25 @@ func Load(dir, arch string, overlay map[string][]byte) (*Prog, error) {
 	return p, nil
 }
 
-// LoadApp loads /repo/app/<file> as an ad-hoc package (types of dependencies come
-// from a separate universe; wiring rules compare by package path and name).
+// LoadApp returns the package made of app/<file> alone.
 func (p *Prog) LoadApp(file string) (*App, error) {
 	if a, ok := p.apps[file]; ok {
 		return a, nil
 	}
-	abs := filepath.Join(p.Dir, "app", file)
-	cfg := &packages.Config{
-		Mode:    packages.LoadAllSyntax,
-		Dir:     p.Dir,
-		Fset:    p.Fset,
-		Env:     env(p.Arch),
-		Overlay: p.Overlay,
+	return nil, fmt.Errorf("app/%s is not part of the tree", file)
+}
+
+// PreloadApps is kept for callers; all app files are loaded with the main universe.
+func (p *Prog) PreloadApps(files ...string) {}
+
+// AppFiles lists the loaded app files.
+func (p *Prog) AppFiles() []string {
+	var out []string
+	for f := range p.apps {
+		out = append(out, f)
 	}
-	pkgs, err := packages.Load(cfg, abs)
-	if err != nil {
-		return nil, err
-	}
-	if len(pkgs) != 1 {
-		return nil, fmt.Errorf("app load of %s: %d packages", file, len(pkgs))
-	}
-	var errs []string
-	packages.Visit(pkgs, nil, func(pk *packages.Package) {
-		for _, e := range pk.Errors {
-			errs = append(errs, e.Error())
-		}
-	})
-	if len(errs) > 0 {
-		return nil, fmt.Errorf("app load of %s: %s", file, strings.Join(errs, "; "))
-	}
-	prog, spkgs := ssautil.AllPackages(pkgs, ssa.InstantiateGenerics)
-	prog.Build()
-	a := &App{File: abs, Pkg: pkgs[0], SSA: spkgs[0], Prog: prog}
-	p.apps[file] = a
-	return a, nil
+	sort.Strings(out)
+	return out
 }
 
 // Pos renders a position relative to the repository root.
@@ -168,6 +192,9 @@ func (p *Prog) Pos(pos token.Pos) string {
 		return "-"
 	}
 	ps := p.Fset.Position(pos)
+	if real, ok := p.virt[ps.Filename]; ok {
+		ps.Filename = real
+	}
 	rel, err := filepath.Rel(p.Dir, ps.Filename)
 	if err != nil {
 		rel = ps.Filename
